@@ -28,7 +28,35 @@ EXACT_F2 = {"maximum", "minimum", "avg2"}
 
 def context_functions():
     """the user functions passed to irispie through `context=`"""
-    return {"dbl": lambda x: x + x, "sq": lambda x: x * x, "avg2": lambda x, y: (x + y) / 2}
+    return {"dbl": lambda x: x + x, "sq": lambda x: x * x, "avg2": lambda x, y: (x + y) / 2,
+            "mix3": lambda a, b, c: a * b + c, "wavg": lambda a, b, w=0.5: w * a + (1 - w) * b}
+
+
+def _norm_z(x, loc=0.0, scale=1.0):
+    return (x - loc) / scale
+
+
+# documented meaning of every function the language offers inside equations (written from the mathematical definitions with
+# the `math` module only -- not from numpy/scipy and not from irispie's table), by name -> (allowed arities, callable)
+DOCUMENTED_FUNCTIONS = {
+    "log": ((1,), lambda x: math.log(x)),
+    "exp": ((1,), lambda x: math.exp(x)),
+    "sqrt": ((1,), lambda x: math.sqrt(x)),
+    "abs": ((1,), lambda x: abs(x)),
+    "logistic": ((1,), lambda x: 1.0 / (1.0 + math.exp(-x))),
+    "maximum": ((2,), lambda a, b: max(a, b)),
+    "minimum": ((2,), lambda a, b: min(a, b)),
+    # normal distribution with mean `loc` and standard deviation `scale` (defaults 0 and 1)
+    "normal_cdf": ((1, 2, 3), lambda x, loc=0.0, scale=1.0: 0.5 * (1.0 + math.erf(_norm_z(x, loc, scale) / math.sqrt(2.0)))),
+    "normal_pdf": ((1, 2, 3), lambda x, loc=0.0, scale=1.0: math.exp(-0.5 * _norm_z(x, loc, scale) ** 2) / (scale * math.sqrt(2.0 * math.pi))),
+    # user functions handed over in `context=`
+    "dbl": ((1,), lambda x: x + x),
+    "sq": ((1,), lambda x: x * x),
+    "avg2": ((2,), lambda x, y: (x + y) / 2),
+    "mix3": ((3,), lambda a, b, c: a * b + c),
+    "wavg": ((2, 3), lambda a, b, w=0.5: w * a + (1 - w) * b),
+}
+POSITIVE_ARGS = {"log": (0,), "sqrt": (0,), "normal_cdf": (2,), "normal_pdf": (2,)}   # argument positions that must be positive
 
 
 def frac(s) -> Fraction:
@@ -83,6 +111,10 @@ def ev(tree, data, t, subs, shocks, exact: bool):
         return FUNCS2[tree[1]](a, b)
     if k == "subs":
         return ev(subs[tree[1]], data, t, subs, shocks, exact)
+    if k == "fn":
+        if exact: raise NotExact()
+        args = [ev(a, data, t, subs, shocks, False) for a in tree[2]]
+        return DOCUMENTED_FUNCTIONS[tree[1]][1](*args)
     if k == "pf":
         kind, dflt = PF_SPELLINGS[tree[1]]
         sh = dflt if tree[2] is None else tree[2]
@@ -734,6 +766,8 @@ class Renderer:
             txt, p = f"{tree[1]}(" + s() + self.expr(tree[2], 0, in_pf) + s() + "," + s() + self.expr(tree[3], 0, in_pf) + s() + ")", 5
         elif k == "pf":
             txt, p = self.pseudo(tree), 5
+        elif k == "fn":
+            txt, p = f"{tree[1]}(" + s() + ("," + s()).join(self.expr(a, 0, in_pf) + s() for a in tree[2]) + ")", 5
         else:
             raise ValueError(tree)
         if p < prec or (not in_pf and k not in ("num", "name", "tname") and self.ch(0.06)):
